@@ -316,6 +316,9 @@ func init() {
 			in.schedPoint("start")
 			return nil
 		},
+		// Settle: natively waits (bounded) until background goroutines of the code under
+		// test have brought the condition about; under the engine WaitAll already ran them
+		"Settle": func(in *Interp, _ *ssa.Function, a []Value, _ *frame) Value { return nil },
 		"Yield": func(in *Interp, _ *ssa.Function, a []Value, _ *frame) Value {
 			in.schedPoint("yield")
 			return nil
